@@ -30,8 +30,11 @@ import (
 )
 
 func TestMain(m *testing.M) {
-	// only gocommon's documented-safe global sources are used concurrently: default UUID generator, real clock, locked random
-	dates.SetNowFunc(time.Now)
+	// only goroutine-safe global sources are used concurrently: default UUID generator, a constant clock, locked random
+	// the clock is a constant function (safe to call concurrently): timestamps that end up URL-encoded or truncated
+	// inside evaluated text cannot be masked reliably, so they must not differ in the first place
+	fixedNow := time.Date(2024, 3, 10, 10, 0, 0, 0, time.UTC)
+	dates.SetNowFunc(func() time.Time { return fixedNow })
 	uuids.SetGenerator(uuids.DefaultGenerator)
 	random.SetGenerator(random.DefaultGenerator)
 	stats.Main(m, "C09")
@@ -53,6 +56,9 @@ var uuidRe = regexp.MustCompile(`[0-9a-f]{8}-[0-9a-f]{4}-4[0-9a-f]{3}-[89ab][0-9
 var timeRe = regexp.MustCompile(`\d{4}-\d{2}-\d{2}T\d{2}:\d{2}:\d{2}(\.\d+)?(Z|[+-]\d{2}:\d{2})`)
 var elapsedRe = regexp.MustCompile(`"elapsed_ms":\d+`)
 
+// a generated UUID cut short by a text limit (…bbd...): cannot be renamed by first appearance, so it is masked
+var cutUUIDRe = regexp.MustCompile(`[0-9a-f]{8}-[0-9a-f-]{0,27}\.\.\.`)
+
 // normalize renames generated UUIDs in order of first appearance and masks timestamps
 func normalize(s string, known map[string]bool) string {
 	seen := map[string]string{}
@@ -66,6 +72,7 @@ func normalize(s string, known map[string]bool) string {
 		return seen[u]
 	})
 	s = timeRe.ReplaceAllString(s, "TIME")
+	s = cutUUIDRe.ReplaceAllString(s, "UUID#cut...")
 	return elapsedRe.ReplaceAllString(s, `"elapsed_ms":0`)
 }
 
@@ -272,7 +279,7 @@ var prop = harn.Register(&harn.Prop[Case]{Name: "TestConcurrentSessions", Run: r
 
 var opts = scen.GenOpts{
 	World: world.Opts{MaxFlows: 3, MaxNodes: 4, Languages: []string{"fra", "spa"}, QueryGroups: true, WebhookRefs: true, NoRandom: true,
-		Templates: []string{"@contact.groups", "@(contact.groups[0].name)", "@(json(contact.groups))", "@(foreach(contact.groups, (g) => g.name))", "@contact.fields", "@(json(globals))", "@globals", "@(json(contact))"},
+		Templates: []string{"@contact.groups", "@(contact.groups[0].name)", "@(json(contact.groups))", "@(foreach(contact.groups, (g) => g.name))", "@contact.fields", "@(json(globals))", "@globals", "@(json(contact.fields))"}, NoGeneratedIDs: true,
 		// no rand()/now()-dependent or clock-dependent templates: outputs must be comparable modulo UUIDs and timestamps
 		Actions: []string{"send_msg", "set_run_result", "set_contact_name", "set_contact_field", "set_contact_language", "add_contact_groups", "remove_contact_groups", "enter_flow", "call_webhook", "add_contact_urn", "open_ticket", "set_contact_status"}},
 	StaleGroups: true,
